@@ -113,13 +113,17 @@ impl Harness for H {
     }
 
     fn rule(&self) -> String {
-        "One configuration = (container kind, storage flavour, capacity, operation group). For each, every sequence of operations \
-         up to the tree depth is executed on a fresh real container (every prefix is an execution of its own that ends with dropping \
-         the container), with all positional arguments 0..=len+1 / 0..=capacity+1 and a small value domain; strings use the bytes \
-         {a . / 0x00 0x80 0xFF} in sequences and all 256 byte values in the push/pop/insert-front families. After every step the \
-         return value, len/is_empty/is_full/capacity, the whole content in iteration order and the set of live drop-tracked elements \
-         are compared with a reference model (Vec, VecDeque, Vec<Option>, BTreeMap, Vec<u8>). A distinct state is a distinct \
-         (configuration, model content); the empty initial state is not counted."
+        "One configuration = (container kind, storage flavour, capacity 0..=4 where constructible, operation group). For each, \
+         every sequence of operations up to the tree depth is executed on a fresh real container (every prefix is an execution of \
+         its own that ends with dropping the container), with all positional arguments 0..=len+1 / 0..=capacity+1 and a small value \
+         domain; strings use the bytes {a . / 0x00 0x80 0xFF} in sequences (three operation groups: single bytes, byte strings in + \
+         truncate, ranges out + strip) and all 256 byte values in the push/pop and push/insert-front families; heap-backed and \
+         relocatable strings run over zeroed memory in the main families and over 0xAA-filled memory in a small extra family. After \
+         every step the return value, len/is_empty/is_full/capacity, the whole content in iteration order and the set of live \
+         drop-tracked elements are compared with a reference model (Vec, VecDeque, Vec<Option>, BTreeMap, Vec<u8>). A distinct \
+         state is a distinct (configuration, model content); the empty initial state and states after a failure are not counted. \
+         An execution that fails ends there; a worker reports a signature (oracle, operation + input class) once and with its \
+         shortest history."
             .into()
     }
 
@@ -271,8 +275,8 @@ impl Harness for H {
     }
 
     fn max_violations_per_worker(&self) -> usize {
-        // distinct signatures only (see dedup)
-        64
+        // only new signatures and shorter witnesses are reported (see dedup), so this is never reached
+        1000
     }
 }
 
